@@ -45,7 +45,8 @@ ASSUMPTIONS = [
     "values with a float/complex part are compared to 1e-9",
     "Python-only spellings (hex/underscore literals, @, is, in, lambda) and pymbolic-only spellings are not generated; imaginary literals are not generated",
 ]
-HEALTH = {"has-unary": 0.05, "has-ifexp": 0.02, "has-call": 0.01}
+HEALTH = {"has-unary": 0.05, "has-ifexp": 0.02, "has-call": 0.01, "lex:respelled": 0.1,
+          "lex:odd-whitespace": 0.05, "lex:odd-number": 0.01}
 
 FUNCS = {"f1": envs.f1, "f2": envs.f2, "g": envs.g, "h": envs.h}
 A_TUPLE = (3, -1, 4, 1)
@@ -251,6 +252,112 @@ def check_string(spec):
     return res
 
 
+# {{{ lexical variation: the same token sequence, other spellings
+
+SEPS = ("", " ", "  ", "\t", " \t ", "\n")
+NUM_SPELLINGS = {
+    "2.5": ("2.5", "2.50", "2.5e0", "25e-1", "0.25e1", "2.5E0", ".25e1", "25.E-1"),
+    "0.5": ("0.5", ".5", "0.50", "5e-1", "5E-1", "5.e-1", ".5e0", "0.5e+0"),
+    "1e1": ("1e1", "1E1", "1e+1", "1.e1", "1.0e1", "10.", "10.0", "1e01"),
+    "1.5e-1": ("1.5e-1", "1.5E-1", "0.15", ".15", "15e-2", "15.e-2"),
+    "10": ("10", "10"), "7": ("7", "7"), "3": ("3", "3"),
+}
+
+
+def _py_tokens(s):
+    import io
+    import tokenize
+    out = []
+    for tok in tokenize.generate_tokens(io.StringIO(s).readline):
+        if tok.type in (tokenize.NEWLINE, tokenize.NL, tokenize.ENDMARKER,
+                        tokenize.INDENT, tokenize.DEDENT, tokenize.COMMENT):
+            continue
+        out.append(tok.string)
+    return out
+
+
+def respell(s0, choices):
+    """The token sequence of *s0* joined with other separators and with numeric
+    literals respelled (same value); None if the result does not tokenize back to
+    the same tokens.  *choices* is a list of ints consumed cyclically."""
+    try:
+        toks = _py_tokens(s0)
+    except Exception:
+        return None
+    if not toks or not choices:
+        return None
+    k = 0
+
+    def nxt():
+        nonlocal k
+        c = choices[k % len(choices)]
+        k += 1
+        return c
+    out, depth, want = [], 0, []
+    for i, t in enumerate(toks):
+        sp = NUM_SPELLINGS.get(t)
+        if sp:
+            t = sp[nxt() % len(sp)]
+        want.append(t)
+        if i:
+            sep = SEPS[nxt() % len(SEPS)]
+            if sep == "\n" and depth == 0:
+                sep = " "           # a bare newline ends a Python expression
+            out.append(sep)
+        out.append(t)
+        if t in "([":
+            depth += 1
+        elif t in ")]":
+            depth -= 1
+    s = "".join(out)
+    try:
+        if _py_tokens(s) != want:
+            return None             # e.g. 'a' 'if' glued to 'aif', '1' '.' 'real'
+    except Exception:
+        return None
+    return s
+
+
+def check_lex(spec):
+    res = Result()
+    try:
+        s0 = PS.render(spec["tree"], "")
+    except (IndexError, TypeError, KeyError) as exc:
+        raise HarnessError(f"malformed syntax tree: {exc}") from None
+    ch = spec.get("lex")
+    if not isinstance(ch, list) or not all(
+            isinstance(c, int) and not isinstance(c, bool) for c in ch):
+        raise HarnessError("lex must be a list of ints")
+    s = respell(s0, ch)
+    if s is None:
+        return res.skip("respelling-changes-the-token-sequence")
+    import warnings
+    with warnings.catch_warnings():
+        warnings.simplefilter("error", SyntaxWarning)
+        try:
+            compile(s, "<case>", "eval")
+        except (SyntaxWarning, SyntaxError):
+            # '1if a else b', '1and d': accepted with a deprecation warning (which
+            # compile() turns into a SyntaxError under this filter); not shared syntax
+            return res.skip("python-warns-or-rejects")
+        except Exception:
+            pass
+    names = sorted(PS.names(spec["tree"]) & set("abcde"))
+    check_source(res, s, names, py_logic=False)
+    _classify_string(res, s)
+    if s != s0:
+        res.label("lex:respelled")
+    if any(w in s for w in ("\t", "\n", "  ")):
+        res.label("lex:odd-whitespace")
+    if any(c in s for c in ("E", "e+", "e0")) or ".e" in s or s.startswith("."):
+        res.label("lex:odd-number")
+    res.nontrivial = s != s0 and len(PS.ops(spec["tree"])) >= 1
+    res.sample = s
+    return res
+
+# }}}
+
+
 DAMAGES = ("append-name", "append-num", "append-close", "drop-last-close",
            "double-op", "trailing-op", "append-open")
 
@@ -369,7 +476,7 @@ def check_invalid(spec):
     return res
 
 
-CHECKS = {"skeleton": check_skeleton, "string": check_string,
+CHECKS = {"skeleton": check_skeleton, "string": check_string, "lex": check_lex,
           "negative": check_negative, "invalid": check_invalid}
 SHRINK = {"is_node": PS.is_node, "is_atom": lambda v: v[0] in ("name", "num"),
           "leaves": (["name", "a"], ["num", "1"], ["name", "b"])}
@@ -531,6 +638,17 @@ def string_case(draw):
 
 
 @st.composite
+def lex_case(draw):
+    kind = draw(st.sampled_from(("num", "num", "bool")))
+    t = draw(syn(draw(st.integers(1, 4)), kind))
+    if draw(st.booleans()):
+        lit = ["num", draw(st.sampled_from(("2.5", "0.5", "1e1", "1.5e-1")))]
+        op = draw(st.sampled_from(("+", "*", "-", "/", "**", "%")))
+        t = ["bin", op, t, lit] if draw(st.booleans()) else ["bin", op, lit, t]
+    return {"tree": t, "lex": draw(st.lists(st.integers(0, 23), min_size=3, max_size=12))}
+
+
+@st.composite
 def negative_case(draw):
     t = draw(syn(draw(st.integers(1, 3))))
     return {"tree": t, "ws": " ", "damage": draw(st.sampled_from(DAMAGES))}
@@ -569,6 +687,7 @@ def generate(ctx):
         ctx.exhaustive["three-operator skeletons (with <=1 unary prefix)"] = m
     ctx.run_given(string_case(), lambda s: ctx.judge("string", s), ctx.n(10000, 200000))
     ctx.run_given(negative_case(), lambda s: ctx.judge("negative", s), ctx.n(2000, 30000))
+    ctx.run_given(lex_case(), lambda s: ctx.judge("lex", s), ctx.n(4000, 80000))
 
 
 MANIFEST = {
